@@ -124,10 +124,13 @@ def build_translator(kind='plain', guard=False, defs=None, cc='gcc', tag=None):
     if guard:
         flags.append('-D%s=1' % GUARD)
     srcs = translator_sources()
+    if guard:
+        srcs = srcs + [os.path.join(VERIF, 'harness', 'hooks_translator.c')]
 
     def comp(src):
         obj = os.path.join(d, os.path.basename(src)[:-2] + '.o')
-        r = run([cc] + flags + ['-c', src, '-o', obj], timeout=300)
+        fl = [f for f in flags if not f.startswith('-std=')] if src.startswith(VERIF) else flags
+        r = run([cc] + fl + ['-c', src, '-o', obj], timeout=300)
         return (src, obj, r)
 
     res = pmap(comp, srcs)
